@@ -6,7 +6,7 @@ VARIANTS = ["IgnoreUnknownIdx", "UnlinkOnDeregister", "ResumeClearsBackoff", "In
             "BackoffNeverReregisters", "RoundRobinStuck", "ConnErrIsFatal", "WakeSkipsAcceptAll", "PauseKeepsRegistered"]
 DESIGN = {"IgnoreUnknownIdx": "TRUE", "ResumeClearsBackoff": "TRUE"}
 INVS = ("TypeOK C01_Conservation C01_ServedOnce C01_NoSilentDrop C02_Bound C02_NoForcedSend C03_NoLostWake "
-        "C04_RoundRobin C05_ListenerLive C05_UdsReachable C05_ConnErrNoDelay C05_TimerHasTimeout C08_NoPanic "
+        "C04_RoundRobin C04_BitsTrueWhenCalm C05_ListenerLive C05_UdsReachable C05_ConnErrNoDelay C05_TimerHasTimeout C08_NoPanic "
         "C08_NoSpin C08_NoGhostBit C08_NoDupHandles C08_FaultReportedOnce")
 
 
@@ -59,6 +59,10 @@ cfg("MC_cmd_w2l2e2", 2, 2, 2, [2], 3, cmds=3, errs=2)   # 75 M states, ~8 min
 cfg("MC_cmd_w2", 2, 1, 2, [2], 2, cmds=3, errs=1)          # 2.9 M states
 cfg("MC_cmd_w2b", 2, 1, 1, [1], 3, cmds=2, errs=1)         # 0.8 M states
 cfg("MC_cmd_fault", 2, 2, 1, [], 3, cmds=2, errs=1, faults=1)  # 8.2 M states
+# back-off with a third connection (a notification inside the back-off window finds a client waiting on the listener)
+cfg("MC_err_c3", 1, 1, 1, [], 3, errs=1, edges=True)
+# two listeners, one pause, one accept error: a pause inside the back-off window of the other listener
+cfg("MC_pause_2l", 1, 1, 2, [2], 2, cmds=1, errs=1, edges=True)
 # liveness form of C03 on the smallest config
 cfg("LIVE_C03", 1, 1, 1, [], 2, spec="FairSpec", props="C03_Live", invs="")
 cfg("LIVE_C03_w2", 2, 1, 1, [], 3, spec="FairSpec", props="C03_Live", invs="")
